@@ -232,6 +232,8 @@ fn fnv(h: u64, x: u64) -> u64 {
 // site capture
 
 fn capture_site() -> String {
+    // first frame (innermost inlined function first) whose source file is KyroDB or harness code;
+    // site = "<file>:<function>" (inlined frames only carry short names under line-tables-only debuginfo)
     let mut out = String::new();
     let mut depth = 0;
     backtrace::trace(|frame| {
@@ -244,19 +246,17 @@ fn capture_site() -> String {
             if found.is_some() {
                 return;
             }
-            if let Some(name) = sym.name() {
-                let s = format!("{:#}", name);
-                if s.starts_with("parking_lot::")
-                    || s.starts_with("<parking_lot::")
-                    || s.starts_with("lock_api::")
-                    || s.starts_with("<lock_api::")
-                    || s.starts_with("backtrace::")
-                    || s.contains("parking_lot::sim::")
-                {
-                    return;
-                }
-                found = Some(s);
+            let Some(file) = sym.filename() else { return };
+            let f = file.to_string_lossy();
+            let ours = f.contains("/engine_shadow/src/") || f.contains("/engine/src/") || f.contains("/vsim/src/") || f.contains("server_included");
+            if !ours || f.contains("/parking_lot_sim/") {
+                return;
             }
+            let base = f.rsplit('/').next().unwrap_or("?").to_string();
+            let name = sym.name().map(|n| format!("{:#}", n)).unwrap_or_else(|| "?".to_string());
+            let name = name.split('<').next().unwrap_or("").to_string();
+            let last = name.split("::").filter(|p| !p.is_empty() && !p.starts_with("{{") && !p.starts_with('{')).last().unwrap_or("?").to_string();
+            found = Some(format!("{}:{}", base, last));
         });
         if let Some(s) = found {
             out = s;
@@ -266,7 +266,7 @@ fn capture_site() -> String {
         }
     });
     if out.is_empty() {
-        out.push_str("?");
+        out.push('?');
     }
     out
 }
